@@ -58,11 +58,17 @@ func c14Run(c c14Case) error {
 	}
 	wlSnap := *wr
 	preset := presetByName[c.Preset]
-	charEnt := cr.Entropy()
-	wlEnt := wr.Entropy()
-	alpha := cr.Alphabet()
-	sp := cr.SuccessProbability()
-	size := wr.Size()
+	// reference values are computed AFTER the concurrent phase and on separate
+	// copies, so that lazily initialised state is first touched concurrently
+	var charEnt, wlEnt, sp float32
+	var alpha string
+	var size uint32
+	type obs struct {
+		what string
+		bits uint32
+		str  string
+	}
+	var seen []obs
 	pmodel := map[string]bool{"": c.Preset == "SFNone"}
 	if s, ok := presetSpec[c.Preset]; ok {
 		vs, _ := s.ValidStrings(1 << 12)
@@ -77,6 +83,11 @@ func c14Run(c c14Case) error {
 		if firstErr == nil {
 			firstErr = e
 		}
+		mu.Unlock()
+	}
+	record := func(what string, bits uint32, str string) {
+		mu.Lock()
+		seen = append(seen, obs{what, bits, str})
 		mu.Unlock()
 	}
 	var wg sync.WaitGroup
@@ -107,22 +118,14 @@ func c14Run(c c14Case) error {
 							if e := checkCharPassword(c.Char, p); e != nil {
 								fail(fmt.Errorf("under concurrency: %w", e))
 							}
-							if math.Float32bits(p.Entropy) != math.Float32bits(charEnt) {
-								fail(fmt.Errorf("under concurrency a password carries entropy %v, recipe %v", p.Entropy, charEnt))
-							}
+							record("c:PasswordEntropy", math.Float32bits(p.Entropy), "")
 						}
 					case "c:Entropy":
-						if e := cr.Entropy(); math.Float32bits(e) != math.Float32bits(charEnt) {
-							fail(fmt.Errorf("concurrent Entropy() = %v, alone %v", e, charEnt))
-						}
+						record("c:Entropy", math.Float32bits(cr.Entropy()), "")
 					case "c:Alphabet":
-						if a := cr.Alphabet(); a != alpha {
-							fail(fmt.Errorf("concurrent Alphabet() = %q, alone %q", a, alpha))
-						}
+						record("c:Alphabet", 0, cr.Alphabet())
 					case "c:SuccessProbability":
-						if v := cr.SuccessProbability(); math.Float32bits(v) != math.Float32bits(sp) {
-							fail(fmt.Errorf("concurrent SuccessProbability() = %v, alone %v", v, sp))
-						}
+						record("c:SuccessProbability", math.Float32bits(cr.SuccessProbability()), "")
 					case "w:Generate":
 						p, err := wr.Generate()
 						if err != nil {
@@ -134,17 +137,11 @@ func c14Run(c c14Case) error {
 						if e := checkWLStructure(c.WL, m, p); e != nil {
 							fail(fmt.Errorf("under concurrency: %w", e))
 						}
-						if math.Float32bits(p.Entropy) != math.Float32bits(wlEnt) {
-							fail(fmt.Errorf("under concurrency a wordlist password carries entropy %v, recipe %v", p.Entropy, wlEnt))
-						}
+						record("w:PasswordEntropy", math.Float32bits(p.Entropy), "")
 					case "w:Entropy":
-						if e := wr.Entropy(); math.Float32bits(e) != math.Float32bits(wlEnt) {
-							fail(fmt.Errorf("concurrent wordlist Entropy() = %v, alone %v", e, wlEnt))
-						}
+						record("w:Entropy", math.Float32bits(wr.Entropy()), "")
 					case "w:Size", "l:Size":
-						if s := wr.Size(); s != size {
-							fail(fmt.Errorf("concurrent Size() = %d, alone %d", s, size))
-						}
+						record("w:Size", wr.Size(), "")
 					case "s:Call":
 						if wr.SeparatorFunc != nil {
 							wr.SeparatorFunc()
@@ -163,6 +160,32 @@ func c14Run(c c14Case) error {
 	wg.Wait()
 	if firstErr != nil {
 		return firstErr
+	}
+	// references from separate, freshly built copies
+	refC := toRecipe(c.Char)
+	charEnt, alpha, sp = refC.Entropy(), refC.Alphabet(), refC.SuccessProbability()
+	refW, _, _ := buildWL(c.WL)
+	wlEnt, size = refW.Entropy(), refW.Size()
+	for _, o := range seen {
+		var want uint32
+		switch o.what {
+		case "c:PasswordEntropy", "c:Entropy":
+			want = math.Float32bits(charEnt)
+		case "c:SuccessProbability":
+			want = math.Float32bits(sp)
+		case "w:PasswordEntropy", "w:Entropy":
+			want = math.Float32bits(wlEnt)
+		case "w:Size":
+			want = size
+		case "c:Alphabet":
+			if o.str != alpha {
+				return fmt.Errorf("concurrent Alphabet() = %q, a fresh copy alone gives %q", o.str, alpha)
+			}
+			continue
+		}
+		if o.bits != want {
+			return fmt.Errorf("under concurrency %s = %v, a fresh copy alone gives %v", o.what, math.Float32frombits(o.bits), math.Float32frombits(want))
+		}
 	}
 	if !reflect.DeepEqual(cr, crSnap) {
 		return fmt.Errorf("shared CharRecipe changed: %+v -> %+v", crSnap, cr)
